@@ -40,6 +40,7 @@ def check(ctx):
     ctx.attempt(_fallback)
     ctx.attempt(forward.check_all, module_suffixes=('plssdesc.plss_parse', 'plssdesc.plssdesc'))
     ctx.attempt(lockdown, ctx.repo.func('PLSSDesc.parse'), only=('layout', 'segment'))
+    ctx.attempt(common.error_check_covers_all, ctx.repo.func('PLSSParser.check_error_tracts'))
 
 
 def _layout_lock(ctx, cl):
@@ -111,6 +112,21 @@ def _layout_lock(ctx, cl):
     t = [norm(s) for s in walk_local(pi.node) if isinstance(s, ast.stmt)]
     ctx.shape('self.mandate_layout = not segment and layout is not None' in t, 'LOCK',
               'PLSSParser: a given layout is mandatory unless segmenting')
+    # the clean-up default is decided by the layout that is actually used,
+    # i.e. after deduction (a deduced copy_all must not be cleaned up either)
+    stores = [n for n in walk_local(pi.node) if isinstance(n, ast.Assign) and norm(n.targets[0]) == 'self.clean_up']
+    if stores:
+        pv = flow.provenance(pi.node, stores[-1].value, control='sentinel')
+        dep_layout = 'layout' in flow.prov_params(pv)
+        dep_deduced = any(c.split('.')[-1] == 'deduce_layout' for c in flow.prov_calls(pv))
+        ctx.tri(dep_layout and dep_deduced, dep_layout and not dep_deduced, 'ORDER',
+                'PLSSParser: the clean-up default looks at the layout after deduction',
+                'derives from deduce_layout()',
+                "the default for clean_up is taken from the `layout` argument before deduce_layout() ran: a copy_all "
+                "layout that was deduced (no Twp/Rge or no section found) gets its text cleaned up",
+                key="ORDER|PLSSParser.__init__|clean_up-after-deduction", where=common.loc(pi, stores[-1]))
+    else:
+        ctx.undecided('ORDER', 'PLSSParser: the clean-up default looks at the layout after deduction', 'no self.clean_up store')
     ok = any(isinstance(n, ast.If) and norm(n.test) == 'clean_up is None' and
              'clean_up = True' in [norm(s) for s in n.body] and any(
                  isinstance(s, ast.If) and norm(s.test) == 'layout == COPY_ALL'
@@ -263,6 +279,11 @@ def _copyall(ctx):
     if not defs and isinstance(a[1], ast.AST) and one_elem(a[1]):
         single = True
     whole = bool(defs) and all(isinstance(v, ast.Call) and (dotted(v.func) or '').endswith('get_next_sec') for v in defs)
+    if isinstance(a[1], ast.Attribute) and norm(a[1].value) == 'self':
+        gns = ctx.repo.func('ChunkParser.get_next_sec')
+        lists = {n.attr for n in ast.walk(gns.node) if isinstance(n, ast.Attribute) and isinstance(n.ctx, ast.Store)
+                 and norm(n.value) == 'self'}
+        whole = a[1].attr in lists      # the working section *list* itself
     ctx.tri(single, whole, 'DEFUSE', '_parse_copyall stages a single section (the first of a multi-section)',
             'one-element list',
             "the whole section list from get_next_sec() is staged: construct_tracts creates one full-text tract per section",
